@@ -97,7 +97,7 @@ func setupGlobals() {
 	pod := &corev1.Pod{}
 	pod.Namespace = k8sNS
 	pod.Name = k8sPod
-	pod.Labels = map[string]string{"app": "x", "allowed_label": "v"}
+	pod.Labels = map[string]string{"allowed_label": "v"} // one label: map iteration order must not show in the outcomes
 	pod.Status.ContainerStatuses = []corev1.ContainerStatus{{Name: k8sCont, ContainerID: "containerd://" + k8sCID}}
 	meta.PutMeta(pod)
 	meta.SelfNodeName = "node-1"
@@ -136,7 +136,7 @@ func allSpecs() []*pluginSpec {
 
 	cardSeq := []string{`{"a":"a","b":"a"}`, `{"a":"a","b":"b"}`, `{"a":"b","b":"a"}`, `{"a":{"b":"a"},"b":1}`, `{}`, `{"a":` + badUTF8 + `,"b":"a"}`,
 		`{"a":"a","b":` + badUTF8 + `}`, `{"a":` + long300 + `,"b":` + long300 + `}`, `[1]`}
-	add(&pluginSpec{Type: "cardinality", Stateful: true, Seq: cardSeq, Configs: []cfgSpec{
+	add(&pluginSpec{Type: "cardinality", Stateful: true, Seq: cardSeq, Volatile: func(cs *cfgSpec) bool { return strings.Contains(cs.JSON, `"ttl"`) }, Configs: []cfgSpec{
 		c(`{"key":["a"],"fields":["b"]}`, "a", "b"),
 		c(`{"key":["a"],"fields":["b"],"action":"discard","limit":1}`, "a", "b"),
 		c(`{"key":["a"],"fields":["b"],"action":"remove_fields","limit":1}`, "a", "b"),
@@ -264,7 +264,7 @@ func allSpecs() []*pluginSpec {
 
 	add(&pluginSpec{Type: "discard", Configs: []cfgSpec{c(`{}`, "a"), c(`{"bogus":1}`, "a")}})
 
-	add(&pluginSpec{Type: "set_time", Configs: []cfgSpec{
+	add(&pluginSpec{Type: "set_time", Volatile: func(*cfgSpec) bool { return true }, Configs: []cfgSpec{
 		c(`{}`, "time"), c(`{"field":"a"}`, "a"), c(`{"field":"a","override":false}`, "a"), c(`{"field":"a","format":"unixtime"}`, "a"),
 		c(`{"field":"a","format":"unixtimemilli"}`, "a"), c(`{"field":"a","format":"unixtimemicro"}`, "a"), c(`{"field":"a","format":"unixtimenano"}`, "a"),
 		c(`{"field":"a","format":"timestampmilli"}`, "a"), c(`{"field":"a","format":"timestampmicro"}`, "a"), c(`{"field":"a","format":"timestampnano"}`, "a"),
@@ -291,19 +291,21 @@ func allSpecs() []*pluginSpec {
 	}})
 
 	modExtra := qs("ab", "a b", "abc abc", `{"b":1}`, "  x  ", "error: x", "ééé")
-	add(&pluginSpec{Type: "modify", Extra: modExtra, Configs: []cfgSpec{
-		c(`{"a":"x"}`, "a"), c(`{"a":"${b}"}`, "a", "b"), c(`{"a":"${a}"}`, "a"), c(`{"a":"${a.b}-${z}"}`, "a.b"), c(`{"a.b":"${a}"}`, "a.b"),
-		c(`{"a":""}`, "a"), c(`{"a":"${b}","_skip_empty":"true"}`, "a", "b"), c(`{"a":"${b}","_skip_empty":"bogus"}`, "a", "b"),
-		c(`{"a":"${"}`, "a"), c(`{"a":"${}"}`, "a"), c(`{"a":"$${b}}"}`, "a", "b"), c(`{"":"x"}`, "a"), c(`{}`, "a"),
-		c(`{"a":"${b|re(\"(a)(b)?\",-1,[1,2],\"|\")}"}`, "a", "b"), c(`{"a":"${b|re(\"(a)(b)?\",-1,[2,1],\"\",true)}"}`, "a", "b"),
-		c(`{"a":"${b|re(\"((a)b)\",1,[1,2],\",\")}"}`, "a", "b"), c(`{"a":"${b|re(\"(a)|(b)\",0,[0],\",\")}"}`, "a", "b"),
-		c(`{"a":"${b|re(\"(a)\",-1,[],\",\")}"}`, "a", "b"), c(`{"a":"${b|re(\"(a)\",-1,[2],\",\")}"}`, "a", "b"), c(`{"a":"${b|re(\"(\",-1,[1],\",\")}"}`, "a", "b"),
-		c(`{"a":"${b|trim(\"all\",\" \")}"}`, "a", "b"), c(`{"a":"${b|trim(\"left\",\"a\")}"}`, "a", "b"), c(`{"a":"${b|trim(\"right\",\"\")}"}`, "a", "b"), c(`{"a":"${b|trim(\"bogus\",\"a\")}"}`, "a", "b"),
-		c(`{"a":"${b|trim_to(\"all\",\"b\")}"}`, "a", "b"), c(`{"a":"${b|trim_to(\"left\",\"{\")}"}`, "a", "b"), c(`{"a":"${b|trim_to(\"right\",\"}\")}"}`, "a", "b"),
-		c(`{"a":"${b|trim_to(\"right\",\"\")}"}`, "a", "b"), c(`{"a":"${b|trim_to(\"all\",\"\")}"}`, "a", "b"), c(`{"a":"${b|trim_to(\"right\",\"bc\")}"}`, "a", "b"),
-		c(`{"a":"${b|cut(\"first\",1)}"}`, "a", "b"), c(`{"a":"${b|cut(\"last\",2)}"}`, "a", "b"), c(`{"a":"${b|cut(\"first\",0)}"}`, "a", "b"), c(`{"a":"${b|cut(\"last\",-1)}"}`, "a", "b"),
-		c(`{"a":"${b|cut(\"last\",300)}"}`, "a", "b"), c(`{"a":"${b|trim(\"all\",\" \")|cut(\"first\",2)|re(\"(.)\",-1,[1],\"-\")}"}`, "a", "b"),
-		c(`{"a":"${b|re(\"(a)\",-1,[1],\"-\")}${b|cut(\"last\",1)}","z":"${a}${a}"}`, "a", "b"),
+	// modify keeps its config in a Go map: with more than one target field the order of the operations (and of added keys)
+	// follows the map iteration order, so those outcomes are not recorded as states
+	add(&pluginSpec{Type: "modify", Extra: modExtra, Volatile: func(cs *cfgSpec) bool { return strings.Contains(cs.JSON, `","z":`) }, Configs: []cfgSpec{
+		c(`{"a":"x"}`, "a"), c(`{"a":"${b}"}`, "b", "a"), c(`{"a":"${a}"}`, "a"), c(`{"a":"${a.b}-${z}"}`, "a.b"), c(`{"a.b":"${a}"}`, "a.b"),
+		c(`{"a":""}`, "a"), c(`{"a":"${b}","_skip_empty":"true"}`, "b", "a"), c(`{"a":"${b}","_skip_empty":"bogus"}`, "b", "a"),
+		c(`{"a":"${"}`, "a"), c(`{"a":"${}"}`, "a"), c(`{"a":"$${b}}"}`, "b", "a"), c(`{"":"x"}`, "a"), c(`{}`, "a"),
+		c(`{"a":"${b|re(\"(a)(b)?\",-1,[1,2],\"|\")}"}`, "b", "a"), c(`{"a":"${b|re(\"(a)(b)?\",-1,[2,1],\"\",true)}"}`, "b", "a"),
+		c(`{"a":"${b|re(\"((a)b)\",1,[1,2],\",\")}"}`, "b", "a"), c(`{"a":"${b|re(\"(a)|(b)\",0,[0],\",\")}"}`, "b", "a"),
+		c(`{"a":"${b|re(\"(a)\",-1,[],\",\")}"}`, "b", "a"), c(`{"a":"${b|re(\"(a)\",-1,[2],\",\")}"}`, "b", "a"), c(`{"a":"${b|re(\"(\",-1,[1],\",\")}"}`, "b", "a"),
+		c(`{"a":"${b|trim(\"all\",\" \")}"}`, "b", "a"), c(`{"a":"${b|trim(\"left\",\"a\")}"}`, "b", "a"), c(`{"a":"${b|trim(\"right\",\"\")}"}`, "b", "a"), c(`{"a":"${b|trim(\"bogus\",\"a\")}"}`, "b", "a"),
+		c(`{"a":"${b|trim_to(\"all\",\"b\")}"}`, "b", "a"), c(`{"a":"${b|trim_to(\"left\",\"{\")}"}`, "b", "a"), c(`{"a":"${b|trim_to(\"right\",\"}\")}"}`, "b", "a"),
+		c(`{"a":"${b|trim_to(\"right\",\"\")}"}`, "b", "a"), c(`{"a":"${b|trim_to(\"all\",\"\")}"}`, "b", "a"), c(`{"a":"${b|trim_to(\"right\",\"bc\")}"}`, "b", "a"),
+		c(`{"a":"${b|cut(\"first\",1)}"}`, "b", "a"), c(`{"a":"${b|cut(\"last\",2)}"}`, "b", "a"), c(`{"a":"${b|cut(\"first\",0)}"}`, "b", "a"), c(`{"a":"${b|cut(\"last\",-1)}"}`, "b", "a"),
+		c(`{"a":"${b|cut(\"last\",300)}"}`, "b", "a"), c(`{"a":"${b|trim(\"all\",\" \")|cut(\"first\",2)|re(\"(.)\",-1,[1],\"-\")}"}`, "b", "a"),
+		c(`{"a":"${b|re(\"(a)\",-1,[1],\"-\")}${b|cut(\"last\",1)}","z":"${a}${a}"}`, "b", "a"),
 	}})
 
 	hashExtra := qs("error 1.2.3.4 at 2025-01-13T10:20:40Z id=7c1811ed-e98f-4c9c-a9f9-58c757ff494f", "[a, b] (c) {d} 'e' \"f\" `g`", "\"unterminated", "((((", "0x", "-", "a@b.c http://x /a/b 1m5s 0x1f 1.5 -2 TRUE")
@@ -412,7 +414,7 @@ func allSpecs() []*pluginSpec {
 		m(`{"masks":[{"re":"(a)(b)","groups":[0,1]}]}`), m(`{"masks":[{"re":"(a)(b)","groups":[1,0]}]}`),
 		m(`{"masks":[{"re":"(a)(b)?","groups":[1,2]}]}`), m(`{"masks":[{"re":"(a)?(b)","groups":[1,2]}]}`), m(`{"masks":[{"re":"(a)?(b)","groups":[1]}]}`),
 		m(`{"masks":[{"re":"(a)(b)?","groups":[2]}]}`), m(`{"masks":[{"re":"(a)|(b)","groups":[1,2]}]}`), m(`{"masks":[{"re":"(a)|(b)","groups":[2]}]}`),
-		m(`{"masks":[{"re":"(a)(b)","groups":[2,1]}]}`), m(`{"masks":[{"re":"(a(b))","groups":[1,2]}]}`), m(`{"masks":[{"re":"(a(b))","groups":[2,1]}]}`),
+		m(`{"masks":[{"re":"(a)(b)","groups":[2,1]}]}`), m(`{"masks":[{"re":"(a(b))","groups":[1,2]}]}`), m(`{"masks":[{"re":"(a(b))","groups":[2,1]}]}`), m(`{"masks":[{"re":"((a)b)","groups":[1,2]}]}`), m(`{"masks":[{"re":"((a)b)","groups":[2,1],"replace_word":"x"}]}`),
 		m(`{"masks":[{"re":"((a)|(b))+","groups":[1,2,3]}]}`), m(`{"masks":[{"re":"(a*)(b*)","groups":[1,2]}]}`), m(`{"masks":[{"re":"(a)*","groups":[1]}]}`), m(`{"masks":[{"re":"()","groups":[1]}]}`),
 		m(`{"masks":[{"re":"(a)(b)","groups":[1,2],"max_count":1}]}`), m(`{"masks":[{"re":"(a)(b)","groups":[1],"max_count":-1}]}`),
 		m(`{"masks":[{"re":"(a)(b)","groups":[1,2],"replace_word":"***"}]}`), m(`{"masks":[{"re":"(a)(b)?","groups":[2],"replace_word":"é"}]}`),
@@ -457,7 +459,7 @@ func allSpecs() []*pluginSpec {
 		}
 		return cfgSpec{JSON: js, Keys: keys}
 	}
-	add(&pluginSpec{Type: "throttle", Stateful: true, Seq: thrSeq, Extra: thrExtra, Reset: func(*cfgSpec) { throttle.VerifReset() },
+	add(&pluginSpec{Type: "throttle", Stateful: true, Seq: thrSeq, Extra: thrExtra, Volatile: func(cs *cfgSpec) bool { return strings.Contains(cs.JSON, `"limiter_expiration"`) }, Reset: func(*cfgSpec) { throttle.VerifReset() },
 		After:   func() { throttle.VerifSetNow("verif", func() time.Time { return fixedNow }) },
 		Skipped: []string{"limiter_backend=redis", "redis_backend_config.* (20 options: need a redis server)"},
 		Configs: []cfgSpec{
